@@ -1,0 +1,26 @@
+//go:build verif
+
+package lru
+
+import "container/list"
+
+// VerifC45Snapshot exposes the internal list (front to back) and the index of
+// a cache to the verification harness: the entries in recency order, and for
+// every index key whether it maps to the linked element holding that key.
+func VerifC45Snapshot[K comparable, V any](c *Cache[K, V]) (keys []K, values []V, indexKeys []K, indexConsistent bool) {
+	indexConsistent = true
+	linked := make(map[*list.Element]bool)
+	for e := c.entries.Front(); e != nil; e = e.Next() {
+		kv := e.Value.(*entry[K, V])
+		keys = append(keys, kv.key)
+		values = append(values, kv.value)
+		linked[e] = true
+	}
+	for k, e := range c.index {
+		indexKeys = append(indexKeys, k)
+		if !linked[e] || e.Value.(*entry[K, V]).key != k {
+			indexConsistent = false
+		}
+	}
+	return
+}
